@@ -95,7 +95,7 @@ theorem checkInherits_use (w : World) (mt : Nat) (inhs : List String) :
     are loaded; the binary was saved under this name -/
 def MayUse (w : World) (name : String) : Prop :=
   ∃ mt b, w.mtime (binPath w name) = some mt ∧ w.bins.lookup (binPath w name) = some b ∧
-    b.magic = magicId ∧ b.driverId = driverId ∧ b.configId = w.configId ∧
+    b.intact = true ∧ b.magic = magicId ∧ b.driverId = driverId ∧ b.configId = w.configId ∧
     (w.simulPath = "" ∨ ∀ t, w.mtime w.simulPath = some t → t ≤ mt) ∧
     (∃ t, w.mtime name = some t ∧ t ≤ mt) ∧
     (∀ i, i ∈ b.includes → ∃ t, w.mtime i = some t ∧ t ≤ mt) ∧
@@ -109,6 +109,9 @@ theorem never_stale (w : World) (name : String) (h : loadBinary w name = .use) :
   unfold loadBinary at h
   split at h
   next mt b hm hb =>
+    split at h
+    · cases h
+    next c0 =>
     split at h
     · cases h
     next c1 =>
@@ -130,7 +133,7 @@ theorem never_stale (w : World) (name : String) (h : loadBinary w name = .use) :
     split at h
     · cases h
     next c6 =>
-    refine ⟨mt, b, hm, hb, by simpa using c2, by simpa using c3, by simpa using c4, ?_,
+    refine ⟨mt, b, hm, hb, by simpa using c0, by simpa using c2, by simpa using c3, by simpa using c4, ?_,
       (checkTimes_pos w mt name).mp c1, ?_, ?_, (checkInherits_use w mt b.inherits).mp h⟩
     · by_cases hp : w.simulPath = ""
       · exact Or.inl hp
@@ -155,9 +158,10 @@ theorem never_stale (w : World) (name : String) (h : loadBinary w name = .use) :
 /-- the converse: whenever those conditions hold the binary is used (the decision is exactly the property's rule,
     not merely a safe approximation of it) -/
 theorem fresh_binary_used (w : World) (name : String) (h : MayUse w name) : loadBinary w name = .use := by
-  obtain ⟨mt, b, hm, hb, m1, m2, m3, hsim, hs, hi, hn, hinh⟩ := h
+  obtain ⟨mt, b, hm, hb, m0, m1, m2, m3, hsim, hs, hi, hn, hinh⟩ := h
   unfold loadBinary
   rw [hm, hb]
+  simp only [m0, Bool.not_true, Bool.false_eq_true, if_false]
   have cs : ¬ (w.simulPath ≠ "" ∧ checkTimes w mt w.simulPath = 0) := by
     rintro ⟨x, y⟩
     rcases hsim with hsim | hsim
@@ -229,7 +233,7 @@ theorem never_stale_transitive (w : World) (name : String) (h : loadBinary w nam
       ∀ i, i ∈ b.inherits → ∀ r, Reach w i r →
         ∃ lp, w.progs.lookup r = some lp ∧ (∀ f, f ∈ lp.files → ∀ t, w.mtime f = some t → t ≤ mt) ∧
           (∀ t, w.mtime (binPath w r) = some t → t ≤ mt) := by
-  obtain ⟨mt, b, hm, hb, _, _, _, _, _, _, _, hinh⟩ := never_stale w name h
+  obtain ⟨mt, b, hm, hb, _, _, _, _, _, _, _, _, hinh⟩ := never_stale w name h
   refine ⟨mt, b, hm, hb, ?_⟩
   intro i hi r hr
   exact treeNewer_false_reach w mt hr treeFuel (hinh i hi).2.2.2
@@ -249,6 +253,7 @@ example :
     loadBinary w "d/a.c" = .use ∧
       loadBinary { w with files := ("d/x.h", 201) :: w.files } "d/a.c" = .stale "include" ∧
       loadBinary { w with configId := 51 } "d/a.c" = .stale "config" ∧
+      loadBinary { w with bins := w.bins.map (fun e => (e.1, { e.2 with intact := false })) } "d/a.c" = .stale "damaged" ∧
       loadBinary { w with files := ("sim.c", 201) :: w.files } "d/a.c" = .stale "simul" ∧
       loadBinary { w with files := ("d/c.c", 201) :: w.files } "d/a.c" = .stale "behind-inherited" ∧
       loadBinary { w with files := ("d/y.h", 201) :: w.files } "d/a.c" = .stale "behind-inherited" := by
@@ -625,5 +630,19 @@ example :
     let evs := [GenEv.stringSwitch 12, .otherSwitch 40, .stringSwitch 90, .pragmaSaveBinary false, .stringSwitch 130,
                 .pragmaSaveBinary true]
     savedAtEnd evs = true ∧ genPatches evs = [12, 90, 130] := by decide
+
+/-! ## (f) byte-level layout: what save_binary writes is what load_binary reads -/
+
+/-- **layout_write_read_agree**: the sections of the file between preamble and checksum are written and read in the same
+    order and with length fields of the same width (both lists are regenerated from the `[WRITE_*]` / `[READ_*]` blocks
+    of binaries.c on every run: moving, dropping or resizing a block on one side only breaks this obligation). -/
+theorem layout_write_read_agree :
+    Gen.C17.writeLayout.filter (fun s => s.1 != "CHECKSUM") = Gen.C17.readLayout.filter (fun s => s.1 != "CHECKSUM") := by
+  decide
+
+/-- **layout_checksum_covers_file**: the checksum is the last thing written and the first thing verified -/
+theorem layout_checksum_covers_file :
+    Gen.C17.writeLayout.getLast? = some ("CHECKSUM", 32) ∧ Gen.C17.readLayout.head? = some ("CHECKSUM", 32) := by
+  decide
 
 end NV.C17
